@@ -316,6 +316,8 @@ def _tl(x, world=None):
     """A list argument as the caller would own it; remembered in world.passed so that a harness can edit it afterwards."""
     if isinstance(x, (list, tuple)):
         x = list(x)
+        if world is not None and world.spec.get("container") == "keys":
+            return dict.fromkeys(x).keys()  # a valid Collection of ids that copy.copy() cannot duplicate
         if world is not None:
             world.passed.append(x)
     return x
